@@ -30,6 +30,14 @@ func main() {
 		runKver(r, n)
 	case "k4":
 		runK4(r, n, true)
+	case "k7pair":
+		runK7pair(r, n)
+	case "k7flush":
+		runK7flush(r, n)
+	case "k7tags":
+		runK7tags(r, n)
+	case "k7scen":
+		runK7scen(r, n)
 	case "kpool":
 		runKpool(r, n)
 	case "kmux":
